@@ -144,6 +144,7 @@ impl TableBuilder for PostgresQueryBuilder {
                                 ColumnSpec::AutoIncrement
                                     | ColumnSpec::Generated { .. }
                                     | ColumnSpec::Using(_)
+                                    | ColumnSpec::Comment(_)
                             )
                         {
                             write!(sql, ", ").unwrap();
@@ -176,7 +177,10 @@ impl TableBuilder for PostgresQueryBuilder {
                                 column_def.name.prepare(sql.as_writer(), self.quote());
                                 write!(sql, ")").unwrap();
                             }
-                            ColumnSpec::Check(check) => self.prepare_check_constraint(check, sql),
+                            ColumnSpec::Check(check) => {
+                                write!(sql, "ADD ").unwrap();
+                                self.prepare_check_constraint(check, sql)
+                            }
                             ColumnSpec::Generated { .. } => {}
                             ColumnSpec::Extra(string) => write!(sql, "{string}").unwrap(),
                             ColumnSpec::Comment(_) => {}
